@@ -63,6 +63,18 @@ def take (l : List Int) (n : Int) : List Int := l.take n.toNat
 def drop (l : List Int) (n : Int) : List Int := l.drop n.toNat
 def mkSlice (n : Int) : List Int := List.replicate n.toNat 0
 
+/-- slices of any other supported element type -/
+def lenG {α : Type} (l : List α) : Int := l.length
+def idxG {α : Type} [Inhabited α] (l : List α) (i : Int) : α := if i < 0 then default else l.getD i.toNat default
+def setG {α : Type} (l : List α) (i : Int) (v : α) : List α := if i < 0 then l else l.set i.toNat v
+def takeG {α : Type} (l : List α) (n : Int) : List α := l.take n.toNat
+def dropG {α : Type} (l : List α) (n : Int) : List α := l.drop n.toNat
+def mkSliceG {α : Type} [Inhabited α] (n : Int) : List α := List.replicate n.toNat default
+
+/-- the zero `time.Time` (January 1, year 1 UTC) in nanoseconds relative to the Unix epoch; it does not fit an
+int64, which is why `t.Sub(zero)` saturates for every real instant. -/
+def zeroTime : Int := -62135596800000000000
+
 /-- `for cond { body }` with fuel: `none` when the fuel does not suffice. -/
 def loop {σ : Type} : Nat → (σ → Bool) → (σ → σ) → σ → Option σ
   | 0, _, _, _ => none
